@@ -187,6 +187,10 @@ def expressions():
         E('(get d "k")', 'd["k"]', "subscript", v=True), E("(if w x y)", "(x if w else y)", "conditional", v=True),
         E("(lfor i (range p) (* i w))", "[i * w for i in range(p)]", "comprehension"),
         E("(do (f 1) x)", "(f(1), x)[1]", "do", v=True), E("(setx z w)", "(z := w)", "walrus"),
+        # an f-string inside a field: the `=` text of the outer field must contain the inner field's source text
+        # (Python 3.12 reads the same spelling: PEP 701)
+        E('f"<{w}>"', kind="nested-fstring"), E('f"{w !r :>{p}}|{x}"', 'f"{w !r:>{p}}|{x}"', "nested-fstring"),
+        E('(+ "n" f"{w}")', '("n" + f"{w}")', "nested-fstring"),
         E("(fn [] x)", None, "hy-only"),
     ]
 
